@@ -58,6 +58,11 @@ CLAIMED = {
             "Trusted: node doubles (slot function from the cluster specification, own key-position table), stable topology. The property has no fault axis; the simulator contributes the independent cluster peer and the schedule of concurrent lanes.",
             "deterministic simulation against slot-checking cluster node doubles",
             "DESIGN.md §3 C18"),
+    "C19": ("fault_enumeration",
+            "Non-bidirectional replay through the real cluster client against node doubles whose slots migrate while batches are in flight (MOVED, ASK, importing/migrating, TRYAGAIN as scheduler-driven fault sequences, sampled): per key the executed commands must be rewind-only in source order, nothing invented, nothing silently lost (non-transactional: all executed after faults stop + drain; transactional: the stored position covers only executed commands when the restart is reported, no duplicate within a run). Two genuine defects are recorded as known findings (pipelined overtaking across a redirect; non-atomic checkpoint in cluster 'transaction' mode).",
+            "Trusted: node doubles incl. migration state machine; sampling of migration schedules (not exhaustive). Known findings are matched by (rule, signature) in known_findings.json.",
+            "deterministic simulation with slot-migration fault sequences + per-key order oracle",
+            "DESIGN.md §3 C19"),
 }
 
 NOT_APPLICABLE = {
